@@ -77,7 +77,12 @@ RULES_PEEK = [
     dict(name='mask_uint8', cxx='uint8::mask_one< 0x7f, 0x61 >', need=1, single=True),
     dict(name='utf16_be_any', cxx='utf16_be::any', need=4),
     dict(name='utf32_le_any', cxx='utf32_le::any', need=4),
+    # contrib rules with their own look-ahead requests
+    dict(name='rep_one_min_max', cxx="rep_one_min_max< 1, 2, 'a' >", need=3),
 ]
+# raw_string as a whole needs a stream of >= 6 bytes for a literal of level 1: (2,2) took 334 s, (2,4) ran out of memory; the opening bracket (the part that
+# requests look-ahead incrementally) is run on its own (harness/c07.cpp: raw_open)
+RULE_RAW = dict(name='raw_string_open', cxx='raw_open', ok='1')   # look-ahead depends on the data (any level): overflow_error is always a permitted outcome, a different result is not
 RULE_UNTIL = dict(name='until', cxx="until< one< 'b' > >", ok='(s0.c+first_b(s0.byte)+1>M_)')
 # grammars that discard where nothing can backtrack (top-level rewind_mode::optional as in tao::pegtl::parse(), no action with input above the discard):
 # arbitrarily long input through a small buffer; overflow only if the very first request does not fit or maximum = 0 (documented: eof needs a free byte)
@@ -100,11 +105,11 @@ def plan(ctx):
     long_ = ({'NSETUP': 5, 'SETUP_SHAPE': '{0,1,3,0,1}', 'SETUP_ONE_READ': 1}, 'require(a1); bump(k1); discard() or bump(k2); require(a3); bump(k3)')
     if quick:
         op_cfgs = [(2, 2, OPS, short), (2, 3, ('discard',), short), (1, 2, ('require', 'empty', 'rewind'), short), (1, 3, ('discard',), short), (4, 2, ('require', 'discard'), short)]
-        rule_cfgs = [(2, 2, RULES + RULES_PEEK, short)]
+        rule_cfgs = [(2, 2, RULES + RULES_PEEK + [RULE_RAW], short)]
     else:
         op_cfgs = ([(1, m, OPS, short) for m in (2, 3, 4)] + [(2, m, OPS, short) for m in (1, 2, 3)] + [(4, m, OPS, short) for m in (0, 1, 2)] +
                    [(4, 3, ('discard',), short), (1, 2, ('require', 'discard', 'rewind'), long_), (2, 2, ('require', 'discard', 'rewind'), long_)])
-        rule_cfgs = [(2, 2, RULES + RULES_PEEK + [RULE_UNTIL], short), (1, 3, RULES + RULES_PEEK, short), (4, 1, RULES + RULES_PEEK, short), (2, 0, RULES[:1] + RULES[6:7], short), (1, 2, RULES_DISCARD, short), (2, 1, RULES_DISCARD, short)]
+        rule_cfgs = [(2, 2, RULES + RULES_PEEK + [RULE_UNTIL], short), (1, 3, RULES + RULES_PEEK, short), (4, 1, RULES + RULES_PEEK, short), (2, 0, RULES[:1] + RULES[6:7], short), (1, 2, RULES_DISCARD, short), (2, 1, RULES_DISCARD, short), (1, 3, [RULE_RAW], short), (2, 2, [RULE_RAW], short)]
 
     def common(chunk, mx, sh):
         shape, shape_txt = sh
